@@ -1,6 +1,7 @@
 import Srctools.Wire
 import Srctools.Model.B64
 import Srctools.Model.C05
+import Srctools.Model.C05Mat
 import Srctools.Gen.Angles
 import Srctools.Gen.Frozen
 /-! Driver for C05 (exact binary64 model + Angle/Vec state machine). Doubles travel as their 64-bit patterns
@@ -11,7 +12,7 @@ import Srctools.Gen.Frozen
   {"op":"parse","s":[[cp…]…]}                              → {"r":[bits|null…]}
   {"op":"pvs","s":[cp…]}                                   → {"r":[b,b,b]|null}
   {"op":"arith","f":"add|sub|mul|div|fmod|pymod","a":[…],"b":[…]} → {"r":[bits|null…]}
-  {"op":"seq","ops":[[name,args…]…]}                       → {"obs":[…],"final":[[kind,a,b,c]…]}
+  {"op":"seq","ops":[[name,args…]…]}                       → {"obs":[…],"final":[[kind,a,b,c]…],"mfinal":[[frozen,[9 bits]]…]}
   {"op":"gen"}                                             → translator obligations as evaluated by the model
 -/
 open Lean B64 C05
@@ -46,18 +47,29 @@ def strOf (o : Obj Val) : List Char := vecStr o.a o.b o.c
 def optNat (j : Json) : Except String (Option Nat) :=
   if j.isNull then pure none else do pure (some (← j.getNat?))
 
+def mobjJson (o : MObj Val) : Json :=
+  Json.arr #[Json.bool o.frozen, Json.arr ([o.m.aa, o.m.ab, o.m.ac, o.m.ba, o.m.bb, o.m.bc, o.m.ca, o.m.cb, o.m.cc].map outBits).toArray]
+
+def mat9Of (j : Json) : Except String (Mat9 Val) := do
+  let l ← bitsList j
+  match l with
+  | [aa, ab, ac, ba, bb, bc, ca, cb, cc] => pure ⟨aa, ab, ac, ba, bb, bc, ca, cb, cc⟩
+  | _ => throw "matrix: need 9 entries"
+
 /-- one element of a "seq" request → (new state, observation) -/
-def seqStep (st : State Val) (j : Json) : Except String (State Val × Json) := do
+def seqStep (st : MState Val) (j : Json) : Except String (MState Val × Json) := do
   let a ← j.getArr?
   let name ← (a[0]!).getStr?
   let nat (i : Nat) : Except String Nat := (a[i]!).getNat?
   let bool (i : Nat) : Except String Bool := (a[i]!).getBool?
   let val (i : Nat) : Except String Val := bitsOf (a[i]!)
-  let fin (r : State Val × Option Nat) : Except String (State Val × Json) :=
+  let fin (r : MState Val × Target) : Except String (MState Val × Json) :=
     match r.2 with
-    | none => pure (r.1, Json.null)
-    | some i => pure (r.1, Json.arr #[Json.num (JsonNumber.fromNat i), objJson (r.1[i]!)])
-  let go (op : Op Val) := fin (step b64 sites st op)
+    | .none => pure (r.1, Json.null)
+    | .obj i => pure (r.1, Json.arr #[Json.num (JsonNumber.fromNat i), objJson (r.1.objs[i]!)])
+    | .mat i => pure (r.1, Json.arr #[Json.str "m", Json.num (JsonNumber.fromNat i), mobjJson (r.1.mats[i]!)])
+  let gom (op : MOp Val) := fin (mstep b64 sites st op)
+  let go (op : Op Val) := gom (.base op)
   match name with
   | "ctor" => go (.ctor (← bool 1) (← bool 2) (← val 3) (← val 4) (← val 5))
   | "ctorCopy" => go (.ctorCopy (← bool 1) (← nat 2))
@@ -73,8 +85,15 @@ def seqStep (st : State Val) (j : Json) : Except String (State Val × Json) := d
   | "vset" => go (.vset (← nat 1) (← nat 2) (← val 3))
   | "vscale" => go (.vscale (← nat 1) (← val 2) (← bool 3))
   | "vadd" => go (.vadd (← nat 1) (← nat 2) (← bool 3) (← bool 4))
+  | "mctor" => gom (.mctor (← bool 1) (← mat9Of (a[2]!)))
+  | "mcopy" => gom (.mcopy (← bool 1) (← nat 2))
+  | "mtranspose" => gom (.mtranspose (← nat 1))
+  | "mset" => gom (.mset (← nat 1) (← nat 2) (← nat 3) (← val 4))
+  | "mmul" => gom (.mmul (← nat 1) (← nat 2) (← bool 3))
+  | "mrow" => gom (.mrow (← nat 1) (← nat 2) (← val 3))
+  | "vrot" => gom (.vrot (← nat 1) (← nat 2) (← bool 3))
   | "str" =>
-    match st[(← nat 1)]? with
+    match st.objs[(← nat 1)]? with
     | some o => pure (st, Wire.codesOfStr (strOf o))
     | none => pure (st, Json.null)
   | "fromStr" =>
@@ -123,13 +142,14 @@ def handle (j : Json) : Except String Json := do
     pure (Json.mkObj [("r", Json.arr (rs.map outOpt).toArray)])
   | "seq" =>
     let ops ← (← j.getObjVal? "ops").getArr?
-    let mut st : State Val := []
+    let mut st : MState Val := ⟨[], []⟩
     let mut obs : Array Json := #[]
     for o in ops do
       let (st', ob) ← seqStep st o
       st := st'
       obs := obs.push ob
-    pure (Json.mkObj [("obs", Json.arr obs), ("final", Json.arr (st.map objJson).toArray)])
+    pure (Json.mkObj [("obs", Json.arr obs), ("final", Json.arr (st.objs.map objJson).toArray),
+      ("mfinal", Json.arr (st.mats.map mobjJson).toArray)])
   | "gen" =>
     let bad := badAngleSites sites
     pure (Json.mkObj [
